@@ -158,92 +158,116 @@ def layer_machine(events, spec, plan=None, expect_clean_end=True,
 
 
 def bracket_checker(events, spec, plan=None):
-    """C05: testSetUp/testTearDown bracket every test, mirrored, balanced."""
+    """C05: testSetUp/testTearDown bracket every test, mirrored, balanced.
+
+    The per-process stream of tokens SU(L) / T(test) / TD(L) is segmented
+    into episodes  SU* T(t)* TD*  and every episode is judged."""
     model = LayerModel(spec, plan)
     viol = []
-    stats = {'tests_bracketed': 0, 'hook_events': 0, 'nontrivial_tests': 0}
+    stats = {'episodes': 0, 'episodes_with_test': 0, 'hook_events': 0,
+             'episodes_without_test': 0, 'nontrivial_episodes': 0,
+             'mirror_checked': 0}
 
     def V(rule, **d):
         viol.append({'rule': rule, 'mech': 'bracket-' + rule, 'detail': d})
 
+    def both(L):
+        return model.has_hook(L, 'testSetUp') and \
+            model.has_hook(L, 'testTearDown')
+
+    def judge(ep, pid):
+        su = [x[1] for x in ep if x[0] == 'SU']
+        td = [x[1] for x in ep if x[0] == 'TD']
+        ts = [x[1] for x in ep if x[0] == 'T']
+        stats['episodes'] += 1
+        for L in set(su):
+            if su.count(L) > 1:
+                V('testSetUp-twice', layer=L, pid=pid, test=ts[:1])
+        for L in set(td):
+            if td.count(L) > 1:
+                V('testTearDown-twice', layer=L, pid=pid, test=ts[:1])
+        if ts:
+            stats['episodes_with_test'] += 1
+            tid = ts[0]
+            L0 = model.layer_of_test.get(tid)
+            clo = model.closure(L0)
+            want_su = {x for x in clo if model.has_hook(x, 'testSetUp')}
+            want_td = {x for x in clo if model.has_hook(x, 'testTearDown')}
+            if len(want_su | want_td) > 1:
+                stats['nontrivial_episodes'] += 1
+            if set(su) != want_su:
+                V('wrong-testSetUp-set', test=tid, got=su,
+                  want=sorted(want_su), pid=pid)
+            if set(td) != want_td:
+                V('wrong-testTearDown-set', test=tid, got=td,
+                  want=sorted(want_td), pid=pid)
+            # bases before derived on the way in
+            for i, L in enumerate(su):
+                for b in model.closure(L) - {L}:
+                    if b in su[i + 1:]:
+                        V('testSetUp-derived-before-base', test=tid,
+                          layer=L, base=b, order=su, pid=pid)
+            # derived before bases on the way out
+            for i, L in enumerate(td):
+                for b in model.closure(L) - {L}:
+                    if b in td[:i]:
+                        V('testTearDown-base-before-derived', test=tid,
+                          layer=L, base=b, order=td, pid=pid)
+            # exact mirror for the layers that have both hooks
+            su_b = [x for x in su if both(x)]
+            td_b = [x for x in td if both(x)]
+            stats['mirror_checked'] += 1
+            if set(su_b) == set(td_b) and td_b != su_b[::-1]:
+                V('testTearDown-not-mirrored', test=tid, setup_order=su_b,
+                  teardown_order=td_b, pid=pid)
+        else:
+            stats['episodes_without_test'] += 1
+            # a test that never started: nothing, or a balanced bracket
+            for L in set(su) | set(td):
+                if both(L) and su.count(L) != td.count(L):
+                    V('unbalanced-around-unstarted-test', layer=L,
+                      setups=su.count(L), teardowns=td.count(L), pid=pid)
+
     for pid, evs in split_pids(events).items():
-        open_stack = []        # layers whose testSetUp is open, in order
-        cur_test = None        # test whose own events are being seen
-        phase = 'between'      # between | opening | in_test | closing
-        closed_for = None
+        ep = []
+        phase = None
+        cur = None
         for e in evs:
             k = e['k']
             if k == 'layer.testSetUp':
-                L = e['layer']
-                stats['hook_events'] += 1
-                if L in open_stack:
-                    V('testSetUp-twice', layer=L, pid=pid, open=open_stack)
-                if phase == 'in_test':
-                    V('testSetUp-inside-test', layer=L, test=cur_test,
-                      pid=pid)
-                if phase == 'closing' and open_stack:
-                    V('testSetUp-before-previous-closed', layer=L,
-                      still_open=list(open_stack), pid=pid)
-                miss = [b for b in model.closure(L) - {L}
-                        if model.has_hook(b, 'testSetUp')
-                        and b not in open_stack]
-                if miss:
-                    V('testSetUp-derived-before-base', layer=L,
-                      missing=sorted(miss), pid=pid)
-                open_stack.append(L)
-                phase = 'opening'
+                tok = ('SU', e['layer'])
             elif k == 'layer.testTearDown':
-                L = e['layer']
+                tok = ('TD', e['layer'])
+            elif k in TEST_KINDS and e['id'] in model.layer_of_test:
+                tok = ('T', e['id'])
+            elif k == 'claim.stop_test':
+                # hard episode delimiter (a runner statement, used only to
+                # segment; everything judged is a fact)
+                if ep:
+                    judge(ep, pid)
+                ep = []
+                phase = None
+                cur = None
+                stats['delimited'] = stats.get('delimited', 0) + 1
+                continue
+            else:
+                continue
+            if tok[0] != 'T':
                 stats['hook_events'] += 1
-                has_su = model.has_hook(L, 'testSetUp')
-                if has_su:
-                    if L not in open_stack:
-                        V('testTearDown-without-testSetUp', layer=L,
-                          pid=pid, after_test=cur_test)
-                    else:
-                        if open_stack[-1] != L and all(
-                                model.has_hook(x, 'testTearDown')
-                                for x in open_stack[open_stack.index(L) + 1:]):
-                            V('testTearDown-not-mirrored', layer=L,
-                              open=list(open_stack), pid=pid)
-                        open_stack.remove(L)
-                phase = 'closing'
-            elif k in TEST_KINDS:
-                tid = e['id']
-                L = model.layer_of_test.get(tid)
-                if L is None:
-                    continue
-                if tid != cur_test or phase in ('opening', 'between',
-                                                'closing'):
-                    if phase == 'closing' and tid == cur_test:
-                        V('test-event-after-testTearDown', test=tid,
-                          kind=k, pid=pid)
-                    # a new test starts: the open set must be exactly the
-                    # hook-bearing layers of its closure
-                    want = {x for x in model.closure(L)
-                            if model.has_hook(x, 'testSetUp')}
-                    # layers with testSetUp but no testTearDown can never be
-                    # observed to close: drop stale ones not in want
-                    stale = [x for x in open_stack
-                             if not model.has_hook(x, 'testTearDown')]
-                    cur_open = set(open_stack)
-                    if cur_open - set(stale) - want or want - cur_open:
-                        V('wrong-layers-open-at-test-start', test=tid,
-                          open=list(open_stack), want=sorted(want), pid=pid)
-                    stats['tests_bracketed'] += 1
-                    if len(want) > 1:
-                        stats['nontrivial_tests'] += 1
-                    # tear-down expectations for this test
-                    cur_test = tid
-                    phase = 'in_test'
-                    # forget un-closable layers not relevant any more
-                    for x in stale:
-                        if x not in want:
-                            open_stack.remove(x)
-                    # re-open semantics for layers lacking testTearDown:
-                    # they are re-entered for each test, drop duplicates
-        # end of process
-        left = [x for x in open_stack if model.has_hook(x, 'testTearDown')]
-        if left:
-            V('testSetUp-never-closed', layers=left, pid=pid)
+            new = False
+            if phase is None:
+                new = False
+            elif tok[0] == 'SU':
+                new = phase in ('T', 'TD')
+            elif tok[0] == 'T':
+                new = phase == 'TD' or (phase == 'T' and tok[1] != cur)
+            if new:
+                judge(ep, pid)
+                ep = []
+            ep.append(tok)
+            phase = tok[0]
+            if tok[0] == 'T':
+                cur = tok[1]
+        if ep:
+            judge(ep, pid)
     return viol, stats
